@@ -347,6 +347,13 @@ func doReplay(eng Engine, path string) int {
 		fmt.Fprintln(os.Stderr, "replay:", err)
 		return 2
 	}
+	if rp.Tier != "" {
+		// bounds (history lengths, size limits) depend on the tier the run was made in
+		if err := eng.Setup(rp.Tier); err != nil {
+			fmt.Fprintln(os.Stderr, "replay: setup:", err)
+			return 2
+		}
+	}
 	if sr, ok := eng.(interface{ SetRun(seed, run uint64) }); ok {
 		sr.SetRun(rp.Seed, rp.Run)
 	}
